@@ -183,11 +183,15 @@ Definition remove_command (st : interp) (name : str) : M unit :=
 (* ---------- return_options ---------- *)
 Definition opt (k : string) (v : value) : value * value := (VStr (lit k), v).
 
+(* `x as MoltInt`: the two's-complement reading of a machine word as a signed 64-bit integer
+   (the usize level of an exception is stored in the options dictionary through this cast) *)
+Definition to_i64 (z : Z) : Z := let m := (z mod 2 ^ 64)%Z in if (m <? 2 ^ 63)%Z then m else (m - 2 ^ 64)%Z.
+
 Definition return_options (r : res value) : res value :=
   match r with
   | Ok _ => Ok (VDict [opt "-code" (VStr (lit "0")); opt "-level" (VStr (lit "0"))])
   | Err e =>
-      let level := opt "-level" (VInt (Z.of_N (x_level e))) in
+      let level := opt "-level" (VInt (to_i64 (Z.of_N (x_level e)))) in
       match x_code e with
       | COkay => Panic (lit "return_options: Okay")
       | CError =>
